@@ -288,6 +288,8 @@ Emit == Gen => PrintT(<<"EDGE", ToJson([src |-> View, dst |-> View', cmd |-> las
 
 Next == Step /\ Emit
 Spec == Init /\ [][Next]_vars
+\* exhaustive runs (Gen = FALSE, nothing to print): TLC splits Step into its named actions for -coverage
+SpecE == Init /\ [][Step]_vars
 
 -----------------------------------------------------------------------------
 (* DR7 as a number, in two 16-bit halves (TLC integers are 32-bit signed; LEN3 = 11 sets bit 31) *)
